@@ -126,7 +126,47 @@ theorem C09_close_unblocks (s : State) (p : Nat) (m : Msg) (hc : s.closed = true
   refine ⟨⟨{ s with aborted := s.aborted ++ [m], ppc := upd s.ppc p .idle, returned := upd s.returned p (m.task :: s.returned p) },
     by simp [step, hp, hc], by simp, by simp⟩, fun acts => closed_foldl acts hc⟩
 
+/-- option.go: whatever options are passed (any order, repetitions, WithSize(≤ 0), nil channel, nil logger), the queue's
+    capacity is positive; WithSize(n ≤ 0), WithCloseChan(nil) and WithErrorLogger(nil) leave the options unchanged, so a nil
+    logger never replaces a logger set before (and the default logger is installed when none was set). -/
+theorem C09_options (l : List Opt) :
+    0 < effCap l ∧
+    (∀ o : Opts, ∀ n : Int, n ≤ 0 → applyOpt o (.withSize n) = o) ∧
+    (∀ o : Opts, applyOpt o (.withCloseChan none) = o ∧ applyOpt o (.withErrorLogger none) = o) := by
+  refine ⟨?_, ?_, fun o => ⟨rfl, rfl⟩⟩
+  · have key : ∀ (l : List Opt) (o : Opts), 0 < o.size → 0 < (l.foldl applyOpt o).size := by
+      intro l
+      induction l with
+      | nil => intro o h; exact h
+      | cons a rest ih =>
+        intro o h
+        apply ih
+        cases a with
+        | withSize n =>
+          simp only [applyOpt]
+          split
+          · rename_i hn; have : sizeFloor = 0 := by decide
+            simp only; omega
+          · exact h
+        | withCloseChan c => cases c <;> exact h
+        | withErrorLogger c => cases c <;> exact h
+    have := key l { size := defaultSize, closeChan := none, errLogger := none } (by decide)
+    unfold effCap createOptions
+    omega
+  · intro o n hn
+    have : sizeFloor = 0 := by decide
+    simp only [applyOpt]
+    split
+    · omega
+    · rfl
+
 /-! non-vacuity: concrete runs -/
+
+-- NewQueue(WithSize(3), WithErrorLogger(logger 2), WithSize(0), WithErrorLogger(nil), WithCloseChan(nil)): size 3, logger 2
+example : (createOptions [.withSize 3, .withErrorLogger (some 2), .withSize 0, .withErrorLogger none, .withCloseChan none]).size = 3 := by decide
+example : (createOptions [.withSize 3, .withErrorLogger (some 2), .withSize 0, .withErrorLogger none, .withCloseChan none]).errLogger = some 2 := by decide
+example : effCap [] = 8 := by decide
+
 
 -- two producers, capacity 1: the second send parks at the select, is released by the consumer's receive
 example : (run 1 [.sendCallback 0 true, .put 0, .sendCallback 1 true, .put 1, .recv, .put 1]).chan.length = 1 := by decide
